@@ -20,10 +20,14 @@ IMPURE = {"call", "lam", "show", "print", "throw", "assert", "set", "upd", "let"
 
 
 def pure_targets(prog):
+    user_methods = {m["n"] for m in prog.get("meths", [])}      # their bodies may print: not side-effect free
+
     def ok(n):
         if n["k"] not in PURE or n["k"] in ("var", "int", "bool", "unit"):
             return False
         if n["k"] == "ctor" and not n.get("args"):
+            return False
+        if rf.nodes({"funs": [], "main": [n]}, lambda x: x["k"] == "mcall" and x["m"] in user_methods):
             return False
         return not rf.has_kind(n, IMPURE)
     return rf.nodes(prog, ok)
